@@ -344,3 +344,17 @@ def c14_7(ctx):
     ok = loops and any(isinstance(n, ast.If) and N(n.test) == NS('hasattr(%s, attr) and not eq(getattr(%s, attr), getattr(%s, attr))' % (g.params[0], g.params[0], g.params[1])) for n in loops[0].body)
     if not ok:
         ctx.fail(g, g.node, '_eq_attrs does not compare each attribute of x with the same attribute of y through eq')
+
+
+@obligation('C14.8', 'TABLES (guards by truth table)', 'identity shortcut of _eq:eq',
+            'eq is reflexive for EVERY object, including those that are not equal to themselves under == or cannot be compared at all (NaN scalars of any float type, NaT, frames with a NaN label, containers holding them): identity must be decided first',
+            axioms=('A1',))
+def c14_8(ctx):
+    fn = ctx.repo.fn('_eq:eq')
+    x, y = fn.params[:2]
+    first = [s for s in fn.body if not (isinstance(s, ast.Expr) and isinstance(s.value, ast.Constant))]
+    ctx.count(1, fn.where())
+    ok = first and isinstance(first[0], ast.If) and N(first[0].test) in (NS('%s is %s' % (x, y)), NS('%s is %s' % (y, x))) and first[0].body and isinstance(first[0].body[0], ast.Return) and const(first[0].body[0].value) is True
+    if not ok:
+        ctx.fail(fn, first[0] if first else fn.node, 'eq does not start with `if x is y: return True`: an object that is not == to itself (np.float32 NaN, pd.NaT, a frame with NaN labels) is then unequal to itself',
+                 witness='x = np.float32("nan"); eq(x, x)')
